@@ -156,7 +156,8 @@ class ShexSerializer(object):
                     )
                 )
 
-                a_statement.add_comment(comment, insert_first=True)
+                if comment not in a_statement.comments:  # the statements outlive this serializer: annotate once
+                    a_statement.add_comment(comment, insert_first=True)
 
 
     def _turn_str_comment_into_proper_rdf(self, str_object_to_transform):
